@@ -139,7 +139,7 @@ func simplifyCall(w *Workload, c any) []func() any {
 	for _, p := range dropPlans(len(cc.Ops)) {
 		p := p
 		out = append(out, func() any {
-			n := &CallCase{Arity: cc.Arity, LoopKind: cc.LoopKind, Chunk: cc.Chunk}
+			n := &CallCase{Arity: cc.Arity, LoopKind: cc.LoopKind, Chunk: cc.Chunk, Builtins: cc.Builtins}
 			n.Ops = append(append([]CallOp{}, cc.Ops[:p[0]]...), cc.Ops[p[1]:]...)
 			return n
 		})
@@ -148,6 +148,13 @@ func simplifyCall(w *Workload, c any) []func() any {
 		out = append(out, func() any {
 			n := cloneCase(w, cc).(*CallCase)
 			n.Chunk = 0
+			return n
+		})
+	}
+	if cc.Builtins != 0 {
+		out = append(out, func() any {
+			n := cloneCase(w, cc).(*CallCase)
+			n.Builtins = 0
 			return n
 		})
 	}
